@@ -148,6 +148,12 @@ pub fn run(ctx: &mut Ctx, replay: Option<&str>) {
         let real: HashSet<String> = p_on.disclosures.iter().map(|d| hash(d)).collect();
         let mut all_decoys = HashSet::new();
         for (p, ds) in &l_on.decoys {
+            // the always-visible registered claims iss / iat / exp are copied as they are (like the cnf object the issuer adds): a
+            // claim set that puts an OBJECT there is not what the property quantifies over (DESIGN.md §7, observation g)
+            if matches!(p.first(), Some(Step::Key(k)) if ["iss", "iat", "exp"].contains(&k.as_str())) {
+                ctx.count("object_inside_an_always_visible_registered_claim(not asserted)");
+                continue;
+            }
             if ds.is_empty() {
                 problems.push(format!("decoys on: the object at {} carries no decoy digest", serde_json::to_string(&pos_json(p)).unwrap()));
             }
